@@ -16,6 +16,7 @@ mod p07;
 mod p04;
 mod p18;
 mod p09;
+mod p14;
 // MODULES (keep this list and the two dispatch tables below in sync)
 
 use std::io::{self, BufRead, Write, BufWriter};
@@ -30,6 +31,7 @@ pub fn dispatch_exec(op: &str, a: &[i64]) -> Option<String> {
   if let Some(r) = p04::exec(op, a) { return r; }
   if let Some(r) = p18::exec(op, a) { return r; }
   if let Some(r) = p09::exec(op, a) { return r; }
+  if let Some(r) = p14::exec(op, a) { return r; }
   // DISPATCH-EXEC
   Some("bad-op".to_string())
 }
@@ -45,6 +47,7 @@ pub fn dispatch_enum(name: &str, args: &[String], w: &mut dyn Write) -> bool {
   if p04::run_enum(name, args, w) { return true; }
   if p18::run_enum(name, args, w) { return true; }
   if p09::run_enum(name, args, w) { return true; }
+  if p14::run_enum(name, args, w) { return true; }
   // DISPATCH-ENUM
   false
 }
